@@ -67,6 +67,80 @@ def history_from_path(nodes, edges, path):
     return lines
 
 
+def rbtree_stage(work, rep, ev, tier):
+    """spec/RbTree.tla: the red-black tree behind the directory reader's inode cache and the xattr writer's set table.  Every insertion
+    sequence of <= 5 (6) keys over 1..4 with a copy taken at any point: the real tree after the sequence must be the model's tree node by
+    node (keys and colours), the copy the tree at the time of the copy although the original grew, every key found, both released in
+    either order (ASan, LSan)."""
+    import bpbind
+    K, M = 4, (5 if tier == "quick" else 6)
+    C = {"K": K, "MaxIns": M, "Emit": False, "BalanceOrder": '"lrf"', "RootStaysRed": False}
+    INV = ["SearchOrder", "RedBlack", "AllFound", "NothingElseFound", "CopyIndependent"]
+    cfg = work + "/rb.cfg"
+    write_cfg(cfg, spec="Spec", constants=C, invariants=INV, deadlock=False)
+    r = run_tlc("RbTree", cfg, workers=8, timeout=1500, heap="8g")
+    ev.tlc(r, "RbTree K=%d MaxIns=%d" % (K, M))
+    if not r["ok"]:
+        print("MODEL-FAILURE: RbTree violates %s" % r["violated"])
+        return None
+    for dev in ({"BalanceOrder": '"frl"'}, {"RootStaysRed": True}):
+        write_cfg(cfg, spec="Spec", constants=dict(C, **dev), invariants=INV, deadlock=False)
+        r = run_tlc("RbTree", cfg, workers=4, timeout=600)
+        ev.tlc(r, "dev RbTree %s" % dev)
+        if r["violated"] != "RedBlack":
+            print("SELF-CHECK-FAILED: RbTree deviation %s: %s" % (dev, r["violated"]))
+            return None
+    write_cfg(cfg, spec="Spec", constants=dict(C, Emit=True), invariants=["EmitOK"], deadlock=False)
+    r = run_tlc("RbTree", cfg, workers=8, timeout=1500, heap="8g")
+    cases = bpbind.parse_emitted(r["out"])
+    if len(cases) < K ** M:
+        print("SELF-CHECK-FAILED: RbTree emitted %d cases" % len(cases))
+        return None
+    binp = work + "/replay_rbtree"
+    if not build.compile_harness(VERIF + "/harness/replay_rbtree.c", binp, variant="asan"):
+        raise RuntimeError("harness build failed")
+
+    def do(i):
+        c = cases[i]
+        cat = c["cat"] if c["copied"] else -1
+        q = subprocess.run([binp, str(K), str(cat), "oc"[i % 2]] + [str(k) for k in c["ins"]], capture_output=True, text=True, timeout=60,
+                           env=dict(os.environ, ASAN_OPTIONS="detect_leaks=1"))
+        return i, q.returncode, q.stdout, q.stderr
+    n, seen = 0, set()
+    with ThreadPoolExecutor(16) as ex:
+        for i, rc, out, err in ex.map(do, range(len(cases))):
+            n += 1
+            c = cases[i]
+            what = None
+            if "ERROR: AddressSanitizer" in err or "LeakSanitizer" in err:
+                what = ("rbtree-memory", err[err.find("ERROR:"):][:160])
+            elif rc != 0:
+                what = ("rbtree-crash", "exit %d" % rc)
+            else:
+                real = json.loads(out.strip().split("\n")[-1])
+                ins = c["ins"]
+                wantfound = [k in ins for k in range(1, K + 1)]
+                cfound = [k in ins[:c["cat"]] for k in range(1, K + 1)] if c["copied"] else [False] * K
+                if real["found"] != wantfound or real["inorder"] != sorted(ins):
+                    what = ("rbtree-lookup", "after the inserts %s: keys found %s, in-order %s" % (ins, real["found"], real["inorder"]))
+                elif c["copied"] and (real["cfound"] != cfound or [list(x) for x in real["cpre"]] != [[x[0], x[1]] for x in c["cpre"]]):
+                    what = ("rbtree-copy", "copy taken after %d of the inserts %s: the copy is %s (finds %s) once the original has grown, at the time of the copy it was %s"
+                            % (c["cat"], ins, real["cpre"], real["cfound"], c["cpre"]))
+                elif [list(x) for x in real["pre"]] != [[x[0], x[1]] for x in c["pre"]]:
+                    DR.append({"ins": ins, "real": real["pre"], "model": c["pre"]})
+            if what and what[0] not in seen:
+                seen.add(what[0])
+                rep.violation(what[0], what[1], data={"ins": c["ins"], "copy_at": c["cat"] if c["copied"] else None})
+    if DR:
+        print("SPEC-DRIFT (no alarm): %d trees differ in shape / colour from RbTree.tla although every key is found, e.g. %s" % (len(DR), json.dumps(DR[0])[:300]))
+    ev.set("rbtree_sequences_replayed", n)
+    ev.set("rbtree_shape_drift", len(DR))
+    return n
+
+
+DR = []
+
+
 def run(tier):
     ev = Evidence(PID, tier, "model_checking")
     rep = Reporter(PID, ev)
@@ -223,6 +297,11 @@ def run(tier):
                 os.unlink(p)
             except OSError:
                 pass
+    rn = rbtree_stage(work, rep, ev, tier)
+    if rn is None:
+        ev.write()
+        return 2
+    replays += rn
     ev.set("kinds", sorted(set(KINDS) - skipped))
     ev.set("kinds_skipped(not built)", sorted(skipped))
     ev.set("traces_validated_against_impl", replays)
